@@ -2,13 +2,16 @@
 oracle: generated schema-expressible scenarios written by the real writer, read by the real reader, canonical
         content compared (discrete identical, reals within 10^-d)   [props/codec_run.py, vlib/canon.py]
 corr:   generic codec of Model/Codec.v on the GENERATED tables W / R vs the written tree and the read-back
-        value (Corr/C01.v relations A and B); float_to_str vs Model/DecStr.v (relation F)"""
+        value (Corr/C01.v relations A and B); float_to_str vs Model/DecStr.v (relation F)
+hist:   writer histories (props/c01_hist.py): several writer objects (CommonRoadFileWriter / XMLFileWriter directly /
+        protobuf) with precisions 1..12 constructed and used in one process, write_to_file and write_scenario_to_file;
+        every XML file written is judged with its own writer's precision; relation H vs Model/WriterPrec.v"""
 from fractions import Fraction
 
 import numpy as np
 
 import gen_tables
-from props import codec_run
+from props import c01_hist, codec_run
 from vlib.flow import load_corpus
 
 RULE = ("schema-expressible scenarios + planning-problem sets generated from one seed each (props/codec_gen.py): "
@@ -16,11 +19,20 @@ RULE = ("schema-expressible scenarios + planning-problem sets generated from one
         "obstacles of all four roles with rectangle / circle / polygon / group shapes, every state class incl. custom "
         "attribute subsets, exact / interval / region values, signal states, set-based and trajectory predictions, "
         "goal states with shape or lanelet positions, location / environment / tags; 40% with an edge stream of "
-        "magnitudes 1e-7..1e5; decimal precisions 1..12. distinct = distinct (seed, precision, edge); non-trivial = "
-        "the scenario has at least one obstacle or sign or light")
+        "magnitudes 1e-7..1e5; decimal precisions 1..12, written by a fresh CommonRoadFileWriter.write_to_file. "
+        "Writer histories (props/c01_hist.py): random interleavings of constructing 1-4 writers (CommonRoadFileWriter "
+        "XML, XMLFileWriter directly, CommonRoadFileWriter protobuf; decimal_precision uniform in 1..12; each with a "
+        "generated scenario of its own) and of their write_to_file / write_scenario_to_file calls (0-2 per writer); every "
+        "file an XML writer writes is read back and must reproduce what that writer was given (no planning problems "
+        "after write_scenario_to_file), reals within 10^-d of that writer. distinct = distinct (seed, precision, edge) / "
+        "distinct history; non-trivial = the scenario has at least one obstacle or sign or light / the history has an "
+        "XML write")
 ASSUME = ["lxml / ElementTree serialise and parse element trees faithfully", "float(text) is the correctly rounded "
           "value of the decimal text; str(np.float64) is the shortest round-trip repr",
-          "children of one element are compared in table order (order inside elements is judged by XSD validation, C03)"]
+          "children of one element are compared in table order (order inside elements is judged by XSD validation, C03)",
+          "histories: file names are given explicitly with OverwriteExistingFile.ALWAYS into an empty directory (naming / "
+          "overwrite policy and byte-identity of outputs are C15); more decimals than d in a file are not a C01 matter; "
+          "what a protobuf writer writes inside a history is not judged here (C02)"]
 
 
 def gen(rng, n):
@@ -30,7 +42,31 @@ def gen(rng, n):
 def oracle(case):
     if case.get("op") == "f2s":
         return oracle_f2s(case)
+    if case.get("op") == "hist":
+        from vlib.core import Findings
+        known = {f["signature"] for f in Findings().data.get("findings", []) if f["property"] == "C01"}
+        return c01_hist.oracle_hist(case, skip=known)
+    if c01_hist.fragile_case(case):
+        return c01_hist.oracle_hist(c01_hist.as_history(case))
     return codec_run.oracle_roundtrip(case)
+
+
+def roundtrip_all(ctx, c):
+    """basic case: fresh CommonRoadFileWriter + write_to_file.  A scenario with a polygon whose rotation sense is a
+    near-boundary decision at the case's precision is judged by the comparison that releases exactly that decision"""
+    if c01_hist.fragile_case(c):
+        h = c01_hist.as_history(c)
+        rs = c01_hist.oracle_hist_all(h)
+        ctx.dist["near-boundary: scenarios with a polygon of undecided rotation sense at 10^-d"] = ctx.dist.get(
+            "near-boundary: scenarios with a polygon of undecided rotation sense at 10^-d", 0) + 1
+        note_reoriented(ctx, h)
+        return rs
+    return codec_run.oracle_roundtrip_all(c)
+
+
+def note_reoriented(ctx, h):
+    k = "near-boundary: polygons read back in the opposite rotation sense (released)"
+    ctx.dist[k] = ctx.dist.get(k, 0) + c01_hist.reoriented(h)
 
 
 # ---------------------------------------------------------------- float_to_str (leaf contract)
@@ -102,7 +138,8 @@ def run(ctx):
                    "translator harness/props/xmlfmt.py: ONE format description generates coq/Gen/XmlFmt.v (tables W, R), "
                    "extracts values from the Python objects and converts lxml trees; state attribute list read from the "
                    "shipped XSD, tag list from the Tag enum; regenerated on every run",
-                   "correspondence relations coq/Corr/C01.v (A: written tree = write W; B: read-back = read R; F: float_to_str)",
+                   "correspondence relations coq/Corr/C01.v (A: written tree = write W; B: read-back = read R; F: float_to_str; "
+                   "H: precision.decimals after every step of a writer history = Model/WriterPrec.v)",
                    "harness/vlib/canon.py + props/codec_gen.py (generator, canonical comparison)",
                    "lxml, CPython float repr/parse, format(x,'.nf') (exponent branch of float_to_str)"]
     changed = gen_tables.main(["XmlFmt.v"])
@@ -114,27 +151,43 @@ def run(ctx):
     n = ctx.n(120, 3000)
     cases = [c for c in load_corpus("C01")] + gen(ctx.rng, n)
     fcases = f2s_cases(ctx.rng, ctx.n(600, 20000))
+    hcases = c01_hist.gen_hist(ctx.rng, ctx.n(60, 1500))
 
     def run_oracle(cs):
         for c in cs:
             if c.get("op") == "f2s":
                 ctx.count(c, True, "float_to_str")
+            elif c.get("op") == "hist":
+                sh = c01_hist.shape_of(c)
+                ctx.count(c, sh["xml_writes"] > 0, f"writer history ({sh['writers']} writers)")
+                for k in ("xml_writes", "scenario_only", "direct"):
+                    ctx.dist["history writes: " + k] = ctx.dist.get("history writes: " + k, 0) + sh[k]
+                ctx.dist["histories with a write after a lower-precision writer"] = ctx.dist.get(
+                    "histories with a write after a lower-precision writer", 0) + int(sh["lower_between"])
+                for r in c01_hist.oracle_hist_all(c):
+                    ctx.fail(r[0], r[1], c)
+                note_reoriented(ctx, c)
+                continue
             else:
                 d = codec_run.describe(c)
                 ctx.count(c, d["static"] + d["dynamic"] + d["phantom"] + d["environment"] + d["signs"] + d["lights"] > 0,
                           "xml scenario" + (" (edge magnitudes)" if c.get("edge") else ""))
                 for k in ("lanelets", "static", "dynamic", "phantom", "environment", "signs", "lights", "intersections"):
                     ctx.dist["total " + k] = ctx.dist.get("total " + k, 0) + d[k]
-            for r in ([oracle(c)] if c.get("op") == "f2s" else codec_run.oracle_roundtrip_all(c)):
+            for r in ([oracle(c)] if c.get("op") == "f2s" else roundtrip_all(ctx, c)):
                 if r:
                     ctx.fail(r[0], r[1], c)
 
-    run_oracle(cases + fcases)
-    codec_run.xml_corr(ctx, cases, ctx.n(40, 400))
+    for k, c in enumerate(hcases):  # one execution per history serves the oracle and the correspondence
+        c01_hist.run_history(c, want_terms=k < ctx.n(8, 120))
+    run_oracle(cases + fcases + hcases)
+    # relation B compares polygon vertices in file order: scenarios with a polygon of undecided rotation sense stay out
+    codec_run.xml_corr(ctx, [c for c in cases if not c01_hist.fragile_case(c)], ctx.n(40, 400))
     corr_f2s(ctx, fcases)
+    c01_hist.hist_corr(ctx, hcases, ctx.n(8, 120))
     if (ctx.proof_breaks or ctx.corr_breaks) and not ctx.failures:
         ctx.log("proof/correspondence broke; widening the search")
         run_oracle([b["case"] for b in ctx.corr_breaks if isinstance(b.get("case"), dict)])
         if not ctx.failures:
-            run_oracle(gen(ctx.rng, n * 5) + f2s_cases(ctx.rng, 5000))
+            run_oracle(gen(ctx.rng, n * 5) + f2s_cases(ctx.rng, 5000) + c01_hist.gen_hist(ctx.rng, n * 3))
     return ctx.finish(RULE, assumptions=ASSUME)
